@@ -883,3 +883,40 @@ Proof.
     + left. cbn. lia.
   - split; vm_compute; reflexivity.
 Qed.
+
+(* ---------- replace / extract: the plumbing around the regexp oracle ---------- *)
+
+Lemma replace_spec_lemma : forall O loc pat repl r, (loc < nfields r)%nat ->
+  let r' := run_replace O loc pat repl r in
+  (getf r loc = [] -> r' = r) /\
+  (getf r loc <> [] -> getf r' loc = o_re_replace O pat repl (getf r loc)) /\
+  (forall j, j <> loc -> getf r' j = getf r j) /\ nfields r' = nfields r.
+Proof.
+  intros O loc pat repl r Hloc. unfold run_replace. fold (getf r loc).
+  destruct (getf r loc) as [|c v] eqn:E.
+  - repeat split; try reflexivity; intros; congruence.
+  - split; [discriminate|]. split; [intros _; apply getf_set_same; assumption|].
+    split; [intros j Hj; apply getf_set_other; congruence|apply nfields_set].
+Qed.
+
+(* extract: no match -> nothing changes; a named group that took part sets its field to the
+   matched substring, an unnamed or absent group is skipped *)
+Lemma extractre_spec_lemma : forall O loc pat locs r,
+  (o_re_find O pat (getf r loc) = None -> run_extractre O loc pat locs r = Ok r) /\
+  (forall idx, o_re_find O pat (getf r loc) = Some idx ->
+     run_extractre O loc pat locs r = run_extractre_loop locs idx (getf r loc) r) /\
+  (forall locs' idx v r0, run_extractre_loop (None :: locs') idx v r0 = run_extractre_loop locs' (tl idx) v r0) /\
+  (forall l locs' a b idx v r0, (a < 0 \/ b < 0)%Z ->
+     run_extractre_loop (Some l :: locs') ((a, b) :: idx) v r0 = run_extractre_loop locs' idx v r0) /\
+  (forall l locs' a b idx (v : bytes) r0, (0 <= a <= b)%Z -> (b <= Z.of_nat (length v))%Z ->
+     run_extractre_loop (Some l :: locs') ((a, b) :: idx) v r0 =
+     run_extractre_loop locs' idx v (set_field r0 l (firstn (Z.to_nat (b - a)) (skipn (Z.to_nat a) v)))).
+Proof.
+  intros O loc pat locs r. unfold run_extractre. fold (getf r loc). split; [intros ->; reflexivity|].
+  split; [intros idx ->; reflexivity|]. split; [reflexivity|]. split.
+  - intros l locs' a b idx v r0 H. cbn [run_extractre_loop].
+    replace ((a <? 0) || (b <? 0))%Z%bool with true by lia. reflexivity.
+  - intros l locs' a b idx v r0 H1 H2. cbn [run_extractre_loop].
+    replace ((a <? 0) || (b <? 0))%Z%bool with false by lia. unfold go_slice.
+    replace ((0 <=? a) && (a <=? b) && (b <=? Z.of_nat (length v)))%Z%bool with true by lia. reflexivity.
+Qed.
